@@ -449,7 +449,7 @@ def step (code : Code) (lim : Limits) (s : VMState) (i : RInstr) (sp : Span) : S
       | (.error c, s'') => ctlToRes c s''
     | none => .panic "stack underflow" s
   | .memberAnyobj name =>
-    -- one option is pushed (after fix M3; before it a missing key pushed two values)
+    -- exactly one option is pushed (fix V42; before it a missing key pushed two values)
     match pop1 s with
     | some (x, s') =>
       match runM s' (memberVal x.v name .arrow sp) with
